@@ -25,7 +25,8 @@ ROOT = os.path.dirname(os.path.dirname(os.path.abspath(__file__)))
 REPO = os.environ.get('VERIF_REPO', '/repo')
 PY = os.environ.get('VERIF_PY', '/venv/bin/python')
 NPROC = int(os.environ.get('VERIF_NPROC', str(os.cpu_count() or 4)))
-EVIDENCE_DIR = os.path.join(ROOT, 'evidence')
+# runs against a scratch copy of the repository (mutants, fix trials) must not overwrite the committed evidence
+EVIDENCE_DIR = os.path.join(ROOT, 'evidence' if os.path.abspath(REPO) == '/repo' else '.scratch-evidence')
 REPLAY_DIR = os.path.join(ROOT, 'replays')
 KNOWN_FILE = os.path.join(ROOT, 'known_findings.json')
 SAMPLE_CAP = 8
